@@ -1021,7 +1021,13 @@ impl Config {
         // Make a best-effort attempt to tokenize.
         let tokens = Self::tokenize_input_for_completion(shell, input);
 
-        let cursor = position;
+        // A position past the end of the line or inside a multi-byte character is moved back
+        // to the nearest character boundary.
+        let mut cursor = position.min(input.len());
+        while !input.is_char_boundary(cursor) {
+            cursor -= 1;
+        }
+        let position = cursor;
         let mut preceding_token = None;
         let mut completion_prefix = "";
         let mut insertion_index = cursor;
